@@ -10,6 +10,7 @@ import FormakVerif.Model.Runtime
 import FormakVerif.Model.Ekf
 import FormakVerif.Model.Validate
 import FormakVerif.Model.Sklearn
+import FormakVerif.Model.Workflow
 open Lean FormakVerif
 
 def parseRat (s : String) : Except String Rat :=
@@ -485,6 +486,27 @@ def opSetParams (j : Json) : Except String Json := do
         ("python_modules", q.config.python_modules), ("extra_validation", q.config.extra_validation),
         ("max_dt_sec", q.config.max_dt_sec), ("innovation_filtering", q.config.innovation_filtering)])])
 
+/-! ### workflow -/
+def jGraph (j : Json) : Except String Graph := do
+  jList (fun n => do
+    let a ← n.getArr?
+    match a[0]?, a[1]? with
+    | some i, some ts => return (← i.getNat?, ← jList (fun t => do
+        let b ← t.getArr?
+        match b[0]?, b[1]? with
+        | some nm, some tgt => return (← nm.getStr?, ← tgt.getNat?)
+        | _, _ => .error "transition") ts)
+    | _, _ => .error "node") j
+
+def opSearch (j : Json) : Except String Json := do
+  let g ← jGraph (← j.getObjVal? "graph")
+  let s ← (← j.getObjVal? "start").getNat?
+  let t ← (← j.getObjVal? "target").getNat?
+  match search g s t with
+  | some p => return okJ (Json.mkObj [("path", Json.arr (p.map Json.str).toArray),
+      ("history", Json.arr ((historyOf g s p).map fun (n : Nat) => Json.num (JsonNumber.fromNat n)).toArray)])
+  | none => return errJ "unreachable"
+
 def dispatch (j : Json) : Except String Json := do
   let op ← (← j.getObjVal? "op").getStr?
   match op with
@@ -506,6 +528,7 @@ def dispatch (j : Json) : Except String Json := do
   | "flatten" => opFlatten j
   | "inverse" => opInverse j
   | "setparams" => opSetParams j
+  | "search" => opSearch j
   | "ping" => return okJ (Json.str "pong")
   | o => .error s!"unknown op {o}"
 
